@@ -18,6 +18,11 @@ pub enum Ty {
     /// a DNA symbol: an element type whose default (the wildcard N = 4) is not the all-zero bit pattern - it is
     /// the element type of every striped sequence
     Sym,
+    /// `[u8; 3]` (a codon, an RGB triple): 3 bytes, a size that does not divide the 32-byte alignment unit
+    #[serde(rename = "Bytes3")]
+    Bytes3,
+    /// `[f32; 3]` (a point): 12 bytes, likewise
+    Floats3,
 }
 
 #[derive(Clone, Debug, Serialize, Deserialize)]
@@ -101,6 +106,22 @@ impl Elem for lightmotif::abc::Nucleotide {
         lightmotif::abc::Dna::symbols()[(self.as_index() as i64 + v).rem_euclid(5) as usize]
     }
 }
+impl Elem for [u8; 3] {
+    fn from_i64(v: i64) -> Self {
+        [v as u8, (v >> 8) as u8 ^ 0x5a, (v >> 3) as u8 ^ 0xc3]
+    }
+    fn add_i64(self, v: i64) -> Self {
+        [self[0].wrapping_add(v as u8), self[1], self[2].wrapping_add((v * 7) as u8)]
+    }
+}
+impl Elem for [f32; 3] {
+    fn from_i64(v: i64) -> Self {
+        [(v % 1000) as f32, (v % 77) as f32 + 0.5, -((v % 13) as f32)]
+    }
+    fn add_i64(self, v: i64) -> Self {
+        [self[0] + (v % 1000) as f32, self[1], self[2] - (v % 5) as f32]
+    }
+}
 impl Elem for f32 {
     fn not_self_equal() -> Option<Self> {
         Some(f32::NAN)
@@ -149,8 +170,18 @@ fn verify<T: Elem, C: ArrayLength>(step: usize, op: &str, m: &DenseMatrix<T, C>,
         return fail("columns", format!("columns() = {} expected {}", m.columns(), c));
     }
     let align = if cfg!(target_arch = "x86_64") { 32 } else { 16 };
-    if m.stride() < c || (m.stride() * std::mem::size_of::<T>()) % align != 0 {
-        return fail("stride", format!("stride {} (x {} bytes) is not >= {} and a multiple of {} bytes", m.stride(), std::mem::size_of::<T>(), c, align));
+    let size = std::mem::size_of::<T>();
+    // stride() counts elements: it is exact when the element size divides the alignment unit (then stride x size must
+    // be whole units), and the element count of the row pitch rounded down otherwise; the pitch itself - the distance
+    // between the starts of two consecutive rows - is measured below for every element type
+    if m.stride() < c || (align % size == 0 && (m.stride() * size) % align != 0) {
+        return fail("stride", format!("stride {} (x {} bytes) is not >= {} and a multiple of {} bytes", m.stride(), size, c, align));
+    }
+    if model.len() >= 2 {
+        let pitch = (m[1].as_ptr() as usize).wrapping_sub(m[0].as_ptr() as usize);
+        if pitch % align != 0 || pitch < c * size || pitch / size != m.stride() {
+            return fail("stride", format!("rows lie {} bytes apart: not a whole number of {}-byte units holding {} elements of {} bytes, or not what stride() = {} says", pitch, align, c, size, m.stride()));
+        }
     }
     for (i, row) in model.iter().enumerate() {
         let got = &m[i];
@@ -466,6 +497,8 @@ fn run<T: Elem, C: ArrayLength + PartialEq>(case: &Case) -> Verdict {
         Ty::F32 => "f32",
         Ty::I64 => "i64",
         Ty::Sym => "nucleotide(default!=zero-bits)",
+        Ty::Bytes3 => "[u8;3](size-does-not-divide-32)",
+        Ty::Floats3 => "[f32;3](size-does-not-divide-32)",
     });
     info.class(match c {
         1 => "C=1",
@@ -505,14 +538,14 @@ impl Sub for Model {
         "model"
     }
     fn rule(&self) -> &'static str {
-        "element type {u8, u32, f32, i64, Nucleotide (whose default is not the zero bit pattern)} x column count {1,5,7,16,21,32,43} x history of up to 40 ops (new, with_capacity, resize grow/shrink/0, reserve, cell writes via both Index forms, row writes, fill, from_rows, clone-and-continue, clone_from in both directions between matrices of different row counts and capacities, iter_mut, into_iter_mut.rev, and reads / writes of a cell the table does not have - a column >= columns of an existing row or a row >= rows - through MatrixCoordinates and through the row slice, which must be refused); after EVERY op rows/columns/all cells/row pointer alignment/stride/iterators (forward, reverse, mixed double-ended, len) are compared with a Vec<Vec<T>> model, then equality against a matrix with equal cells but a different padding history, and (f32) equality of a matrix holding a NaN with its clone and with itself (by the cells: unequal both times); non-trivial = >= 5 ops incl. a growing resize after writes and a shrink"
+        "element type {u8, u32, f32, i64, Nucleotide (whose default is not the zero bit pattern), [u8;3] and [f32;3] (sizes that do not divide the 32-byte unit; one case in six)} x column count {1,5,7,16,21,32,43} x history of up to 40 ops (new, with_capacity, resize grow/shrink/0, reserve, cell writes via both Index forms, row writes, fill, from_rows, clone-and-continue, clone_from in both directions between matrices of different row counts and capacities, iter_mut, into_iter_mut.rev, and reads / writes of a cell the table does not have - a column >= columns of an existing row or a row >= rows - through MatrixCoordinates and through the row slice, which must be refused); after EVERY op rows/columns/all cells/row pointer alignment/stride/iterators (forward, reverse, mixed double-ended, len) are compared with a Vec<Vec<T>> model, then equality against a matrix with equal cells but a different padding history, and (f32) equality of a matrix holding a NaN with its clone and with itself (by the cells: unequal both times); non-trivial = >= 5 ops incl. a growing resize after writes and a shrink"
     }
     fn cases(&self, tier: Tier) -> u64 {
         tier.pick(28 * 3_000, 28 * 60_000)
     }
     fn strategy(&self, _tier: Tier) -> BoxedStrategy<Case> {
         (
-            prop_oneof![Just(Ty::U8), Just(Ty::U32), Just(Ty::F32), Just(Ty::I64), Just(Ty::Sym)],
+            prop_oneof![2 => Just(Ty::U8), 2 => Just(Ty::U32), 2 => Just(Ty::F32), 2 => Just(Ty::I64), 2 => Just(Ty::Sym), 1 => Just(Ty::Bytes3), 1 => Just(Ty::Floats3)],
             proptest::sample::select(vec![1usize, 5, 7, 16, 21, 32, 43]),
             proptest::collection::vec(op_strategy(), 0..40),
         )
@@ -526,6 +559,8 @@ impl Sub for Model {
             Ty::F32 => dispatch_cols!(case, f32),
             Ty::I64 => dispatch_cols!(case, i64),
             Ty::Sym => dispatch_cols!(case, lightmotif::abc::Nucleotide),
+            Ty::Bytes3 => dispatch_cols!(case, [u8; 3]),
+            Ty::Floats3 => dispatch_cols!(case, [f32; 3]),
         }
     }
 }
